@@ -5,17 +5,17 @@ with the reason given in PENDING (kept current by hand)."""
 import json, os, sys
 
 ROOT = os.path.dirname(os.path.dirname(os.path.abspath(__file__)))
-checks = json.load(open(os.path.join(ROOT, "checks.json")))
+import glob
+checks, TEXT = {}, {}
+for f in sorted(glob.glob(os.path.join(ROOT, "checks", "*", "check.json"))):
+    d = json.load(open(f))
+    pid = os.path.basename(os.path.dirname(f)).upper()
+    if d.get("disabled"):
+        continue
+    checks[pid] = d["driver"]
+    m = d["manifest"]
+    TEXT[pid] = (d["driver"]["level"], m["technique"], m["level_text"], m["level_note"], m.get("design_ref", "DESIGN.md section 3 " + pid))
 props = [json.loads(l) for l in open(os.path.join(ROOT, "properties.jsonl"))]
-
-# id -> (category, technique, level text, level note, design ref)
-TEXT = {
- "C11": ("model_checking",
-         "stateless model checking of the implementation: DFS over all schedules with iterative preemption bounding under a cooperative scheduler (build-overlay sync/atomic shims, synctest bubble)",
-         "Every interleaving with <=2 (quick) / <=3 (thorough) preemptions of 2-3 concurrent ArenaResolveGraphQLResponse calls plus cancellation actors on the real resolve package (inbound and subgraph single flight), each execution compared with the solo run of every participant; no panic, no blocked participant, no foreign cancellation, mutation fetches never shared.",
-         "Sequentially consistent interleavings of the instrumented synchronisation operations (sync, sync/atomic, sync.Map, close/send/cancel statements of package resolve); code between two points is atomic; fake data source whose answer is a function of (input, headers); hash collisions not explored.",
-         "DESIGN.md section 3 C11, section 2.2"),
-}
 
 PENDING = {}
 
